@@ -115,27 +115,42 @@ def r_C32(root):
     return inst, out
 
 def r_C32c(root):
-    """C32.c  a provider built from an RREL *string* (register_scope_providers) and one built from the parsed expression
-       of a grammar reference are configured alike: in create_rrel_scope_provider every read of the expression's flags
-       (use_proxy, importURI) happens after the string has been parsed — no path reaches such a read without passing the
-       `isinstance(x, str)` conversion."""
+    """C32.c  a provider built from an RREL *string* (register_scope_providers) and one built from the parsed expression of a
+       grammar reference are configured alike, decided by evaluation of create_rrel_scope_provider with recording stand-ins
+       for parse() and the two provider classes: for every flag combination the string form and the pre-parsed form give
+       the same provider class (the model-loading one iff +m), the same use_proxy, the parsed tree and the split string."""
+    from sa import pyeval
+    from sa.exprs import HS
     R = "textx/scoping/rrel.py"; out = []; inst = 0
-    fn = find(load(root, R), "create_rrel_scope_provider"); fi = sem.info(fn); cfg = fi.cfg
-    p0 = fn.args.args[0].arg
-    conv = [n for n in cfg.nodes if n.kind == "cond" and n.ast is not None and "isinstance(%s,str)" % p0 in ast.unparse(n.ast).replace(" ", "")]
-    if not conv: raise AnalysisError("create_rrel_scope_provider: string-to-expression conversion not found")
-    reads = []
-    for n in own_nodes(fn):
-        if isinstance(n, ast.Attribute) and n.attr in ("use_proxy", "importURI") and isinstance(n.ctx, ast.Load) and isinstance(n.value, ast.Name): reads.append(n)
-        elif isinstance(n, ast.Call) and callee_name(n) == "getattr" and len(n.args) >= 2 and isinstance(n.args[1], ast.Constant) and n.args[1].value in ("use_proxy", "importURI"): reads.append(n)
-    if not reads: raise AnalysisError("create_rrel_scope_provider: reads of the expression's flags not found")
-    for r in reads:
-        inst += 1
-        nd = fi.node_of(r)
-        early = nd is not None and cfg.paths_avoiding(cfg.entry, nd, lambda m: m in conv)
-        for pr in ("C32", "C11"): ob(pr, "C32.c", R, "create_rrel_scope_provider", "flag read %s after the string was parsed" % " ".join(ast.unparse(r).split()), not early)
-        if early:
-            for pr in ("C32", "C11"): out.append(Finding(pr, "C32.c", R, "create_rrel_scope_provider", " ".join(ast.unparse(stmt_of(r)).split())[:100], "the flag is read before an RREL string is parsed: a provider registered as a string ('+p:...', '+m:...') is built without its flags, the same expression written in the grammar keeps them", witness="register_scope_providers({'*.*': '+p:a.b'}) against [T|FQN|+p:a.b] in the grammar"))
+    t = load(root, R); fn = find(t, "create_rrel_scope_provider")
+    ps = [a.arg for a in fn.args.args]
+    if len(ps) < 2: raise AnalysisError("create_rrel_scope_provider: parameters %s" % ps)
+    fns = {k: v for k, v in helper_functions(root, R, "create_rrel_scope_provider").items() if k not in ("create_rrel_scope_provider", "parse", "find", "find_object_with_path", "__init__", "__call__")}
+    def tree_for(text): return HS({".kind": "RRELExpression", ".text": text, ".importURI": text.startswith("+") and "m" in text.split(":")[0], ".use_proxy": text.startswith("+") and "p" in text.split(":")[0], ".seq": HS({".kind": "seq"}), ".flags": text.split(":")[0][1:] if text.startswith("+") else ""})
+    def run(arg, split):
+        made = []; parsed = []
+        def parse_(txt): tr = tree_for(txt); parsed.append(tr); return tr
+        def mk(kind):
+            def ctor(rrel_tree=None, split_string=None, use_proxy=None, *a, **k): o = HS({".kind": kind, ".rrel_tree": rrel_tree, ".split_string": split_string, ".use_proxy": use_proxy, ".extra": (a, k)}); made.append(o); return o
+            return pyeval.PyFn(ctor)
+        env = {"__functions__": fns, "__module__": t, ps[0]: arg, ps[1]: split, "parse": pyeval.PyFn(parse_), "RREL": mk("RREL"), "RRELImportURI": mk("RRELImportURI"), "ImportURI": pyeval.PyFn(lambda *a, **k: None),
+               "__classes__": {"str": lambda v: isinstance(v, str), "RRELExpression": lambda v: isinstance(v, dict) and v.get(".kind") == "RRELExpression"}}
+        if fn.args.kwarg: env[fn.args.kwarg.arg] = {}
+        try: res = pyeval.run_block(fn.body, env, max_steps=4000)
+        except pyeval.Raised as r_: return ("raise", r_.cls), parsed
+        except pyeval.Unsupported as u_: raise AnalysisError("create_rrel_scope_provider: outside the evaluated subset: %s" % u_)
+        return res, parsed
+    for text in ("a.b", "+m:a.b", "+p:a*", "+mp:^a", "+pm:a"):
+        for split in (None, "::"):
+            inst += 1
+            want_kind = "RRELImportURI" if "m" in (text.split(":")[0] if text.startswith("+") else "") else "RREL"; want_proxy = "p" in (text.split(":")[0] if text.startswith("+") else "")
+            rs, parsed_s = run(text, split); pre = tree_for(text); rt, parsed_t = run(pre, split)
+            def good(r, tree): return isinstance(r, dict) and r.get(".kind") == want_kind and r.get(".use_proxy") is want_proxy and r.get(".rrel_tree") is tree and r.get(".split_string") == split
+            oks = len(parsed_s) == 1 and good(rs, parsed_s[0]); okt = not parsed_t and good(rt, pre)
+            def show(r): return "%s(use_proxy=%r%s)" % (r.get(".kind"), r.get(".use_proxy"), "" if isinstance(r.get(".rrel_tree"), dict) and r[".rrel_tree"].get(".kind") == "RRELExpression" else ", tree=%r" % (r.get(".rrel_tree"),)) if isinstance(r, dict) else repr(r)
+            for pr in ("C32", "C11"): ob(pr, "C32.c", R, "create_rrel_scope_provider", "%s as a string and as a parsed expression, split %r" % (text, split), oks and okt)
+            if not (oks and okt):
+                for pr in ("C32", "C11"): out.append(Finding(pr, "C32.c", R, "create_rrel_scope_provider", "%s (split %r)" % (text, split), "the expression  %s  registered as a string gives %s, given as a parsed expression it gives %s; documented: both give %s(use_proxy=%r) on the parsed expression with the caller's split string (a provider registered as a string must behave like the same expression written in the grammar)" % (text, show(rs), show(rt), want_kind, want_proxy), witness="register_scope_providers({'R.a': %r})" % text))
     return inst, out
 
 def r_C32de(root):
